@@ -22,6 +22,21 @@ def trivial_loop():
     return LoopSpec(invariant=lambda l: {})
 
 
+def only_propagates(c):
+    """An exceptional exit is the exception of a callee (an assumed-to-fail external call, a callee under contract, user
+    code): the function adds no failure of its own on this exit."""
+    import z3
+    def walk(evs):
+        for e in evs:
+            if e.kind == 'loop':
+                for alt in e.alts:
+                    yield from walk(alt)
+            else:
+                yield e
+    ok = any(e.extra.get('raised') is c.exc for e in walk(c.trace) if e.kind in ('ext', 'call'))
+    return {'exception_comes_from_a_callee': z3.BoolVal(bool(ok))}
+
+
 def calls(trace, suffix):
     return [e for e in trace if e.kind == 'call' and e.name.endswith(suffix)]
 
